@@ -28,7 +28,7 @@ func init() {
 				"C13.reset (Hashgraph.Reset inserts every frame.SortedFrameEvents() element through InsertFrameEvent — which seeds round / witness / Lamport caches from the frame's values — before storing the block; Node.fastForward re-derives the anchor block's pending membership changes after a successful core reset), " +
 				"C13.resetfields (InmemStore.Reset and Hashgraph.Reset re-initialise every listed piece of state: nothing of the pre-reset chain survives), C13.latest (validators after the reset are the latest recorded set), C13.anchorreceipts (the accepted receipts of the anchor block are applied after the reset: processAcceptedInternalTransactions has no early success exit that depends on state the reset just wrote; shared with C10.everyreceipt), C13.resetorder (Store.Reset replays frame.PeerSets — a map — in arbitrary order, so PeerSetCache.Set must be insensitive to the order of calls: a peer's first round is lowered when an earlier round arrives later, the round list is re-sorted). " +
 				"NOT decided — and said so: that a reset node DELIVERS THE SAME BLOCKS afterwards; that depends on which events arrive after the reset (an event whose other-parent lies below the frame cannot be inserted; the documentation concedes the protocol is not watertight)."},
-		Rules: []ruleFunc{c13frames, c13reset, c13resetfields, func(p *Prog, r *Report) { latestRule(p, r, "C13.latest") }, func(p *Prog, r *Report) { firstRoundRule(p, r, "C13.resetorder") }, func(p *Prog, r *Report) { everyReceiptRule(p, r, "C13.anchorreceipts") }},
+		Rules: []ruleFunc{c13frames, c13reset, c13resetfields, func(p *Prog, r *Report) { latestRule(p, r, "C13.latest") }, func(p *Prog, r *Report) { firstRoundRule(p, r, "C13.resetorder") }, func(p *Prog, r *Report) { everyReceiptRule(p, r, "C13.anchorreceipts") }, func(p *Prog, r *Report) { sharedSliceRule(p, r, "C13.shared") }},
 	})
 }
 
